@@ -28,6 +28,12 @@ class PairState:
         self.budget = 0
         self.raised = []                           # methods of local calls that raised earlier in this history
         self.es = [{}, {}]                         # es[X][sid] = set of 'sent'/'recv' END_STREAM seen by X
+        # SETTINGS bookkeeping for signatures: frames sent by X (the initial one counts), ACKs the peer has emitted for
+        # them that reached X, and whether an ACK ever reached X while a LATER frame of X was already outstanding - the only
+        # situation in which the known per-key acknowledgement defect (C11) can apply a value early
+        self.sset = [1, 1]
+        self.acks = [0, 0]
+        self.overlap = [False, False]
         if upgraded:
             hdr = self.conn[C].initiate_upgrade_connection()
             self.pipe[C] += self.conn[C].data_to_send()
@@ -147,13 +153,22 @@ class PairState:
                 # an automatic reply (refused push, frame on a stream this endpoint reset): the peer will report it
                 self.ledger[1 - to].append(("reset", f.sid, f.f["code"]))
                 self.gone[to].add(f.sid)
+        # every SETTINGS ACK that has reached ``to`` by now (an error later in the same chunk does not undo it)
+        nack = sum(1 for e in (o.events or []) if type(e).__name__ == "SettingsAcknowledged")
+        if o.kind == "raise":
+            nack = max(nack, 1 if self.sset[to] - self.acks[to] >= 2 and b"\x04\x01\x00\x00\x00\x00" in bytes(data) else 0)
+        for _ in range(nack):
+            if self.sset[to] - self.acks[to] >= 2:
+                self.overlap[to] = True
+            self.acks[to] += 1
         if o.kind == "raise":
             if not self.closed[to]:
                 bad("valid-traffic-rejected",
                     "%s: %s.receive_data raised %s (%s) on bytes produced by the peer's successful calls" % (
                         context, NAMES[to], o.exc_name, o.msg),
                     receiver=NAMES[to], exc=o.exc_name, code=(wire.err_name(int(o.code)) if o.is_proto else "n/a"),
-                    detail=" ".join((o.msg or "").split()[:4]), after_raising_call=(self.raised[0] if self.raised else "none"))
+                    detail=" ".join((o.msg or "").split()[:4]), after_raising_call=(self.raised[0] if self.raised else "none"),
+                    settings_overlap=self.overlap[to])
             self.broken = True
             return False
         return self.check_observed(to, self.observed_items(o.events), bad, context)
